@@ -111,6 +111,7 @@ def cmd_check(args):
             engines.append(j["engine"])
     bins = {}
     build_violations = []
+    harness_build_failed = []
     for e in engines:
         ok, path, log = BUILD.ensure(e, REPO)
         if not ok:
@@ -126,6 +127,11 @@ def cmd_check(args):
                 lp = os.path.join(viol_dir, "%s_build_%s.log" % (pid, e))
                 open(lp, "w").write(log)
                 build_violations.append((e, lp, [l for l in log.splitlines() if "error:" in l][:1]))
+                continue
+            if spec.get("compiled"):
+                # this property also has a job of generated programs that use only the public DSL: it does not need this engine (its emitter is
+                # built against the last commit's header when necessary). Run it; without a violation the run still ends as a harness failure.
+                harness_build_failed.append((e, log))
                 continue
             print("HARNESS-BUILD-FAILED engine=%s" % e)
             print(log[-6000:])
@@ -196,6 +202,8 @@ def cmd_check(args):
                     eprop = dj.get("prop", pid)
             except Exception:
                 pass
+            if eng in [x[0] for x in harness_build_failed]:
+                continue
             if eng not in bins:
                 ok, bp, log = BUILD.ensure(eng, REPO)
                 if not ok:
@@ -224,6 +232,8 @@ def cmd_check(args):
                     known_lines.append("KNOWN-FINDING: property=%s %s [%s] %s" % (pid, f["id"], w.get("name", os.path.basename(path)), w.get("what", f.get("title", ""))))
                 else:
                     notes.append("known finding %s witness %s no longer fails on this tree" % (f["id"], w.get("name", path)))
+                continue
+            if eng in [x[0] for x in harness_build_failed]:
                 continue
             if eng not in bins:
                 ok, bp, log = BUILD.ensure(eng, REPO)
@@ -329,7 +339,7 @@ def cmd_check(args):
             if os.path.exists(cur):
                 keep = os.path.join(work, "crash_j%d_w%d.bin" % (ji, w))
                 shutil.copyfile(cur, keep)
-                head = [l for l in log.splitlines() if "ERROR" in l or "runtime error" in l or "SUMMARY" in l or "WARNING: ThreadSanitizer" in l]
+                head = [l for l in log.splitlines() if "ERROR" in l or "runtime error" in l or "SUMMARY" in l or "WARNING: ThreadSanitizer" in l or l.startswith("STALL:")]
                 confirm_and_record(j["engine"], keep, "engine aborted: " + (head[0][:300] if head else "exit %d" % rc), j.get("prop", pid))
             else:
                 print("HARNESS-ERROR worker produced no summary and no current case; rc=%d" % rc)
@@ -494,6 +504,14 @@ def cmd_check(args):
     with open(os.path.join(ROOT, "evidence", pid + ".json"), "w") as f:
         json.dump(ev, f, indent=1)
     print("%s tier=%s seed=%d evaluations=%d distinct_nontrivial=%d violations=%d wall=%.1fs" % (pid, tier, seed, merged["evaluations"], len(hashes) + extra_nontrivial, len(seen), wall))
+    if harness_build_failed:
+        for e, log in harness_build_failed:
+            print("NOTE: engine %s does not build against this tree (the friend hook calls private helpers); only the generated-program job ran" % e)
+        if status == 0:
+            print("HARNESS-BUILD-FAILED engine=%s" % harness_build_failed[0][0])
+            print(harness_build_failed[0][1][-4000:])
+            return 2
+        return status
     if status == 0 and len(hashes) + extra_nontrivial < minimum:
         print("HARNESS-ERROR too few non-trivial cases (%d < %d): generator starved" % (len(hashes) + extra_nontrivial, minimum))
         return 2
